@@ -28,7 +28,7 @@ MUTATORS = {"append", "extend", "insert", "pop", "remove", "clear", "update", "s
 ENTRY = ["ctparse", "ctparse_gen", "score", "score_final", "apply_postprocessing_rules", "predict_log_proba"]
 # import-time registration (the @rule decorator): runs when a module that defines rules is imported, not during a
 # parse; the registries as they stand after import are checked completely by C19 (rule.registry)
-IMPORT_TIME = {"rule.rule", "rule.rule._map", "rule.rule.fwrapper", "rule.rule._has_consequtive_regex"}
+IMPORT_TIME = {"rule.rule"}        # and the functions nested directly in it, whatever their names (the wrapper, one level deeper, runs during a parse and is checked)
 ORDER_CONSUMERS = {"list", "tuple", "enumerate", "iter", "next", "zip", "map", "filter", "sum", "min", "max", "reversed"}
 
 
@@ -197,7 +197,7 @@ class StaticFrameUnit:
                 for c in ast.iter_child_nodes(node):
                     if isinstance(c, (ast.FunctionDef, ast.AsyncFunctionDef)):
                         q = "%s.%s" % (prefix, c.name)
-                        if c.name in reach and q not in IMPORT_TIME:
+                        if c.name in reach and q not in IMPORT_TIME and not (q.startswith("rule.rule.") and q.count(".") == 2):
                             ob(q, "writes-no-module-level-state", module_state_writes(c, modnames, outer), "module-state")
                             ob(q, "iterates-no-set-in-hash-order", set_order_uses(c), "hash-order")
                         loc, _ = _local_bindings(c)
